@@ -26,7 +26,10 @@ H = 4
 
 
 def base_spec(opt=False):
-    return fam.base(H, [fam.fx("t0", 1), fam.vr("t1", 1, 2, **({"optional": True} if opt else {}))])
+    # both tasks on one worker: resource constraints can be operands too
+    return fam.base(H, [fam.fx("t0", 1), fam.vr("t1", 1, 2, **({"optional": True} if opt else {}))],
+                    workers=[{"name": "w0"}],
+                    requirements=[{"task": "t0", "resource": "w0"}, {"task": "t1", "resource": "w0"}])
 
 
 def leaf_pool(opt=False):
@@ -41,6 +44,8 @@ def leaf_pool(opt=False):
         {"kind": "TasksDontOverlap", "t1": "t0", "t2": "t1"},
         {"kind": "expr", "expr": ["<", ["start", "t0"], 2]},
         {"kind": "expr", "expr": ["==", ["+", ["start", "t0"], 1], ["end", "t0"]]},
+        # several assertions, no auxiliary unknowns
+        {"kind": "ResourceUnavailable", "resource": "w0", "intervals": [[0, 1], [3, 4]]},
     ] + ([] if opt else [
         {"kind": "expr", "expr": [">=", ["end", "t1"], 3]},
         {"kind": "expr", "expr": ["!=", ["start", "t0"], ["start", "t1"]]},
